@@ -17,10 +17,18 @@ META = dict(
          "executed on the real limiter over miniredis and every code / grant decision (and whether the request "
          "reached Redis) is compared with the specification; the burst+rate*t bound is additionally evaluated directly on "
          "the grants observed per bucket, and the Align() window length handed to Redis is compared with a TLC-printed "
-         "table of AlignedWindow for the wall-clock seconds of the run.",
+         "table of AlignedWindow for the wall-clock seconds of the run. The fallback switch itself (reserveN failure path, "
+         "startMonitor, waitForRedis) has a mechanism model TokenMonitorImpl.tla, model-checked over all interleavings of 3 "
+         "callers, the monitor and Redis going down/up for NoDeadFallback / NeverStuck and the liveness property Return "
+         "(a variant with the redisAlive store hoisted above the lock must be rejected: vacuity guard); a concurrent "
+         "recovery stage looks for a dead fallback on the real limiter (rounds of outage/recovery under concurrent callers "
+         "with one call per limiter failing late, exactly at the model's critical point).",
     note="Trusted: TLC, miniredis 2.23.1 (Lua via gopher-lua, TTL by FastForward) as the Redis environment, the "
          "driver's barrier (after Up it waits, bounded, for the monitor's ping, reading redisAlive/monitorStarted "
-         "only as a barrier). The breaker inside redis.Redis has its coin forced to 'never reject' (H2) so that "
+         "only as a barrier; the concurrent stage watches redisAlive to place one late failure - a direct call of the "
+         "unexported failure handler startMonitor, what reserveN does when a script call fails - between the monitor's "
+         "redisAlive := 1 and monitorStarted := false, a sub-microsecond window that natural traffic does not hit; its "
+         "verdict is public: an EVAL of the limiter's key must reach Redis again within 8 s). The breaker inside redis.Redis has its coin forced to 'never reject' (H2) so that "
          "breaker rejections (C01) do not blur fallback/return. Not generated: server clock ahead of the caller "
          "clock (DESIGN 5), caller clock stepping backwards, requests between recovery and the monitor's ping, "
          "context cancellation. Align() is covered for the window length handed to Redis and the resulting TTL (table of "
@@ -69,7 +77,7 @@ def mc_monitor(ctx):
 
 
 def concurrent(ctx, binp):
-    cfgs = [dict(rounds=(20 if ctx.quick else 60), limiters=16, k=6, storm_ms=700)]
+    cfgs = [dict(rounds=(25 if ctx.quick else 80), limiters=8, k=3)]
     path, _ = ctx.write_cases("concurrent.ndjson", cfgs)
     ctx.replay(PKG, OVERLAY, "^TestVerifC08Concurrent$", path, label="concurrent", shards=1, binp=binp, timeout=1200)
 
